@@ -23,6 +23,8 @@ trait Dut {
     fn eq_fresh(&self, m: &Model) -> bool;
     fn boxed_clone(&self) -> Box<dyn Dut>;
     fn same(&self, other: &dyn Dut) -> bool;
+    /// `self.clone_from(&fresh digraph built from m)`
+    fn clone_from_fresh(&mut self, m: &Model);
     fn as_any(&self) -> &dyn std::any::Any;
 }
 
@@ -60,6 +62,11 @@ macro_rules! dut_unweighted {
             }
             fn same(&self, other: &dyn Dut) -> bool {
                 other.as_any().downcast_ref::<$T>().is_some_and(|x| x == self)
+            }
+            fn clone_from_fresh(&mut self, m: &Model) {
+                let f: fn(&Model) -> $T = $fresh;
+                let src = f(m);
+                self.clone_from(&src);
             }
             fn as_any(&self) -> &dyn std::any::Any {
                 self
@@ -121,6 +128,11 @@ macro_rules! dut_weighted {
                     .as_any()
                     .downcast_ref::<AdjacencyListWeighted<$W>>()
                     .is_some_and(|x| x == self)
+            }
+            fn clone_from_fresh(&mut self, m: &Model) {
+                let f: fn(&Model) -> AdjacencyListWeighted<$W> = $fresh;
+                let src = f(m);
+                self.clone_from(&src);
             }
             fn as_any(&self) -> &dyn std::any::Any {
                 self
@@ -291,7 +303,7 @@ pub fn case(idx: u64, seed: u64, p: &Params, o: &mut CaseOut) {
             }
         }
     };
-    let n = m.n();
+    let mut n = m.n();
     let fixed = d.fixed_order();
     let dname = d.name();
     let len = r.range(1, p.usize("max_len", 60));
@@ -408,6 +420,26 @@ pub fn case(idx: u64, seed: u64, p: &Params, o: &mut CaseOut) {
                     }
                     d.observe(&m, o, "after-toggle", full);
                 }
+            }
+            _ if r.chance(0.3) => {
+                // overwrite the digraph with clone_from(another digraph, usually of another order)
+                let n2 = match r.below(4) {
+                    0 => n,
+                    1 => n + 1 + r.below(3),
+                    2 => (n / 2).max(1),
+                    _ => r.range(1, 12),
+                };
+                let dens = *r.pick(&[0.0, 0.3, 0.8]);
+                let mut other = gen::random_arcs(&mut r, n2, dens);
+                if d.weighted() {
+                    gen::weights(&mut r, &mut other, gen::WClass::Small);
+                }
+                log.push(format!("clone_from(order {n2}, {} arcs)", other.size()));
+                d.clone_from_fresh(&other);
+                m = other;
+                n = m.n();
+                d.observe(&m, o, "after-clone_from", true);
+                o.check(d.eq_fresh(&m), "clone_from:eq-fresh", || "digraph != digraph freshly built from the model after clone_from".into());
             }
             _ => {
                 // clone-and-compare with a freshly built digraph
